@@ -2,7 +2,7 @@ def DOMLOOPS(n):
     """sibling walks of the real DOM helpers: <= n-1 children per element (checked by the unwinding assertions)"""
     return {r'^_ZN5QXmpp7Private17firstChildElementERK11QDomElement11QStringView': n, r'^_ZN5QXmpp7Private18nextSiblingElementERK11QDomElement11QStringView': n}
 def I(name, entry=None, dom=8, **kw):
-    d = dict(loop_bounds=DOMLOOPS(dom), name=name, entry=entry or 'h_' + name, unwind=10, timeout_s=300, mem_gb=6, safety_is_property=True, object_bits=12, cdefs={'VP_UTF8_LATIN1': 1}, bound='arbitrary bounded tree over the vocabulary of the parser under test (SPEC bounds)'); d.update(kw); return d
+    d = dict(loop_bounds=DOMLOOPS(dom), name=name, entry=entry or 'h_' + name, unwind=10, timeout_s=300, mem_gb=4, safety_is_property=True, object_bits=12, cdefs={'VP_UTF8_LATIN1': 1}, bound='arbitrary bounded tree over the vocabulary of the parser under test (SPEC bounds)'); d.update(kw); return d
 def DOMLOOPS(n):
     """sibling walks of the real DOM helpers: <= n-1 children per element (checked by the unwinding assertions)"""
     return {r'^_ZN5QXmpp7Private17firstChildElementERK11QDomElement11QStringView': n, r'^_ZN5QXmpp7Private18nextSiblingElementERK11QDomElement11QStringView': n}
@@ -16,7 +16,8 @@ STANZA_TUS = ['src/base/QXmppStanza.cpp', 'src/base/QXmppIq.cpp', 'src/base/QXmp
 # two passes through these three give no verdict (the serialized tree has up to 6 optional children at symbolic positions): first half in the quick tier (*_safe), the
 # fix point of these types follows from C01's field-wise round trip P(W(x)) == x; Sasl2::StreamFeature (QList<QString>) runs out of memory even in the first half
 SASL_KW = dict(sasl2_success=dict(tiers=('manual',)), sasl2_continue=dict(tiers=('manual',)), sasl2_feature=dict(tiers=('manual',)), sasl2_feature_safe=dict(tiers=('manual',)),
-               sasl2_authenticate=dict(tiers=('thorough',), timeout_s=600, mem_gb=8), sasl2_continue_safe=dict(mem_gb=8), sasl2_success_safe=dict(mem_gb=8))
+               sasl2_authenticate=dict(tiers=('thorough',), timeout_s=600, mem_gb=8), sasl2_continue_safe=dict(mem_gb=8), sasl2_success_safe=dict(mem_gb=6), sasl_auth=dict(mem_gb=3), sasl_challenge=dict(mem_gb=3), sasl_response=dict(mem_gb=3), sasl_success=dict(mem_gb=3),
+               sasl2_challenge=dict(mem_gb=3), sasl2_response=dict(mem_gb=3), sasl2_abort=dict(mem_gb=3), fast_token_request=dict(mem_gb=3), fast_request=dict(mem_gb=3))
 MODELS = ['qt_core.c', 'qt_list.c', 'c02_dom.c', 'c02_env.c']
 def iqcase(n1, *children):
     """children: (tag, ns[, (gtag, gns)]) with indices into the vocabulary of h_stanza.cpp: tags iq,error,bind,ping,text,item-not-found,zz,jid; ns '',client,stanzas,bind,ping"""
@@ -39,11 +40,11 @@ SPEC = dict(
     property='C02',
     groups=[
         dict(name='sm', harness='h_sm.cpp', tus=SM_TUS, models=MODELS, loop_bounds=DOMLOOPS(5),
-             instances=[I(e) for e in ['sm_enable', 'sm_enabled', 'sm_resume', 'sm_resumed', 'sm_ack', 'sm_request', 'sm_failed', 'sm_failed_safe']]),
+             instances=[I(e, mem_gb=3) for e in ['sm_enable', 'sm_enabled', 'sm_resume', 'sm_resumed', 'sm_ack', 'sm_request', 'sm_failed', 'sm_failed_safe']]),
         dict(name='sasl', harness='h_sasl.cpp', tus=SASL_TUS, models=MODELS, loop_bounds=DOMLOOPS(8),
              instances=[I(e, dom=SASL[e], **SASL_KW.get(e, {})) for e in SASL]),
         dict(name='stanza', harness='h_stanza.cpp', tus=STANZA_TUS, models=MODELS,
-             instances=[I('error', dom=6, timeout_s=600, mem_gb=8, tiers=('thorough',)), I('error_safe', dom=6)] + IQ_CASES),
+             instances=[I('error', dom=6, timeout_s=600, mem_gb=8, tiers=('thorough',)), I('error_safe', dom=6, mem_gb=6)] + IQ_CASES),
         dict(name='stream', harness='h_stream.cpp', tus=STANZA_TUS, models=MODELS,
              instances=[I('features', dom=15, cdefs={'VP_UTF8_LATIN1': 1, 'DOM_MAXCH': 14}, mem_gb=8, timeout_s=600, tiers=('manual',)), I('stream_error', dom=5, timeout_s=600, tiers=('manual',))]),
     ],
